@@ -2661,8 +2661,11 @@ struct Explorer {
           x.detail = "console-pool command started without the console";
           out->push_back(x);
         }
-      } else if (e.kind == Event::kFinish || e.kind == Event::kKilled) {
+      } else if (e.kind == Event::kFinish || e.kind == Event::kKilled || e.kind == Event::kReap) {
         const RunCmd& rc = r.cmds[e.cmd];
+        // a tool that closes its output early is done for ninja's poll loop but occupies its slot until it is waited for
+        if (e.kind == Event::kFinish && rc.spec.detach) continue;
+        if (e.kind == Event::kReap && !rc.spec.detach) continue;
         const Variant* v = VariantByHash(sc, rc.manifest_hash);
         if (v) {
           auto p = v->producer.find(rc.spec.id());
